@@ -170,7 +170,7 @@ static void plan_gen(HPlan *P, uint64_t seed, const RunOpts *o) {
     bool quick = strcmp(o->tier, "quick") == 0;
     sim_seed(seed); default_knobs(); K.max_blocks = 300000000;
     uint32_t m = sim_rndn(100);
-    uint32_t pool = quick ? 400 : 200000;
+    uint32_t pool = quick ? 2500 : 400000;
     if (m < 70) { P->mode = 0; P->pseed = sim_rnd() % pool; }
     else if (m < 85) { P->mode = 1; snprintf(P->prog, sizeof P->prog, "%s", corpus_prog((int)sim_rndn((uint32_t)corpus_nprogs()))); P->tok = (int)sim_rndn(8); }
     else { P->mode = 2; P->churn = (int)sim_rndn((uint32_t)NCHURN); }
